@@ -20,7 +20,7 @@ META = {
                   'enspara.info_theory.libinfo.matrix_bincount2d / bincount2d (E2: typed Cython tree)'],
     'bounds': {'quick': 'joint-count tables 2 features x 2 features x (2x2 states) symbolic non-negative integers with at least one '
                         'observation; relabelling = every permutation of the state axes; normalisation: every (n_x, n_y) with '
-                        '1..3 features per side and 2..4 states; entropy/KL: distributions of length <=3; kernel: see evidence',
+                        '1..3 features per side and 2..4 states; entropy/KL: distributions of length <=3; out-of-range ids: 2 frames, state counts 2 vs 3; kernel: see evidence',
                'thorough': 'state tables up to 2x3; KL length 4'},
     'stubs': ['log = uninterpreted function; the instances log(1/p) = -log(p) (p>0) are assumed on the terms that occur (true '
               'facts about log)', 'libinfo kernels replaced by their specification in the Python-level jobs (the specification is '
